@@ -165,7 +165,7 @@ func generate(r *core.Run, cfgName string, subst map[string]string) (*envTable, 
 	var opts []*optCase
 	var mu sync.Mutex
 	res := tlcrun.MustHold(r, tlcrun.Options{Module: "JsSemGen", Config: cfgName, Workers: 5, TimeoutSec: r.Pick(600, 3000), XssMB: 256, HeapGB: 2,
-		Files: map[string]string{cfgName: cfg},
+		Files: map[string]string{cfgName: cfg, "c03_eval.ndjson": ""},
 		OnCase: func(raw []byte) {
 			var head struct {
 				Spec string `json:"spec"`
@@ -454,7 +454,7 @@ func (x *pend) report(r *core.Run, table *envTable, specTrace string) {
 	r.Violation(map[string]interface{}{"kind": "prog", "prog": x.p.id, "source": x.p.fn, "variant": x.v.name},
 		fmt.Sprintf("minified program behaves differently (options %s, environment row %v):\n%s\n  input : %s\n  output: %s", x.v.name, row, x.p.fn, x.m.Input, x.m.Output),
 		map[string]interface{}{"input": "globalThis.main = " + x.p.fn + ";", "output_program": outSeg, "options": x.v.options(), "env_row": row,
-			"v8_input": x.m.Input, "v8_output": x.m.Output, "spec": specTrace, "labels": x.p.Labels, "family": x.p.Kind})
+			"v8_input": x.m.Input, "v8_output": x.m.Output, "spec": specTrace, "labels": x.p.Labels, "family": x.p.Kind, "prog_ast": x.p.RawProg})
 }
 
 // confirmMismatches applies the verdict rule: a V8-in/V8-out disagreement is a
